@@ -98,7 +98,7 @@ func checkMC3(r *ev.Run, c mcCase) {
 				if s.At(i, j, k) {
 					want = 1
 				}
-				if math.Abs(w-want) > 1e-6 {
+				if !(math.Abs(w-want) <= 1e-6) {
 					r.Violation("mc3/"+c.Algo+"/winding", fmt.Sprintf("winding %g at lattice point (%d,%d,%d), want %g", w, i, j, k, want), c)
 					return
 				}
@@ -172,7 +172,7 @@ func largeLattice(r *ev.Run) {
 				if c.s.Contains(p) {
 					want = 1
 				}
-				if w := topo.Winding3(tris, p.Array()); math.Abs(w-want) > 1e-6 {
+				if w := topo.Winding3(tris, p.Array()); !(math.Abs(w-want) <= 1e-6) {
 					r.Violation("mc3/"+algo+"/winding", fmt.Sprintf("large lattice: winding %g at %v want %g", w, p, want), cs)
 				}
 			}
@@ -218,7 +218,7 @@ func checkMS2(r *ev.Run, c mcCase) {
 			if s.At(i, j) {
 				want = -1 // interior on the right of every segment: normal (-dy,dx) points outward
 			}
-			if math.Abs(w-want) > 1e-6 {
+			if !(math.Abs(w-want) <= 1e-6) {
 				r.Violation("ms2/"+c.Algo+"/winding", fmt.Sprintf("winding %g at lattice point (%d,%d), want %g", w, i, j, want), c)
 				return
 			}
@@ -294,7 +294,7 @@ func checkBitmap(r *ev.Run, c mcCase) {
 			if get(x, y) {
 				want = -1
 			}
-			if math.Abs(wn-want) > 1e-6 {
+			if !(math.Abs(wn-want) <= 1e-6) {
 				r.Violation("bitmap/winding", fmt.Sprintf("winding %g at pixel centre (%d,%d), want %g", wn, x, y, want), c)
 				return
 			}
@@ -590,7 +590,7 @@ func enumRectSet(r *ev.Run, dims [][3]int) {
 					if b&(1<<uint(q)) != 0 {
 						want = 1
 					}
-					if math.Abs(w-want) > 1e-6 {
+					if !(math.Abs(w-want) <= 1e-6) {
 						r.Violation("RectSet.Mesh/winding", fmt.Sprintf("winding %g at cell (%d,%d,%d) want %g", w, i, j, k, want), c)
 						bad = true
 					}
